@@ -560,6 +560,10 @@ def _encode(command: str, components: list[int], parts: list[str]) -> tuple[byte
         elif components[0] > _SIZE_H or parts[0][-1] == 'L':
             command += '4'
 
+    if command not in _ENCODE:
+        # a keyword which stands for a whole community and takes no value ('redirect-to-nexthop'): written with
+        # values ('redirect-to-nexthop:0:0') it raised KeyError, which is not the error of a refused text
+        raise ValueError('invalid extended community {}, it takes no value'.format(command))
     encoding = _ENCODE[command]
 
     if len(components) != len(encoding):
